@@ -95,7 +95,7 @@ def gen_ops(rng, timed, tier):
         ops.append(op)
     for op in ops:
         if op.get('agg') in ('var', 'std') and op['fam'] != 'roll':
-            op['ddof'] = rng.choice([1, 1, 0])
+            op['ddof'] = rng.choice([1, 1, 0, 2, 3])
         op['pre'] = rng.choice(PRES)
         if op.get('src') == 'series' and op['pre'] is not None:
             op['pre'] = ['x', '>', 0]
